@@ -346,10 +346,20 @@ def campaign(mod, tier, seed, workers=None, max_runs=None, time_cap=None, out=sy
             for v in r["violations"]:
                 by_sig.setdefault(v["sig"], []).append((i, v))
 
+        # scenarios the generator got wrong (e.g. a REPL history the reference interpreter rejects) are
+        # not verdicts: a handful is skipped and counted, more than 1 % of the runs is a harness error
         gen_sigs = [s for s in by_sig if ":generator:" in s]
-        if gen_sigs:
+        invalid_runs = sorted(set(i for s in gen_sigs for i, _ in by_sig[s]))
+        if len(invalid_runs) > max(3, done // 100):
             i, v = by_sig[gen_sigs[0]][0]
-            raise build.HarnessError("the generator produced an invalid scenario (run %d, %s): %s" % (i, gen_sigs[0], v["msg"][:500]))
+            raise build.HarnessError("the generator produced %d invalid scenarios (first: run %d, %s): %s" % (len(invalid_runs), i, gen_sigs[0], v["msg"][:500]))
+        if invalid_runs:
+            log("note: %d generated scenario(s) were invalid and skipped (runs %s): %s" % (len(invalid_runs), invalid_runs[:5], by_sig[gen_sigs[0]][0][1]["msg"][:200]))
+            for sg in list(by_sig):
+                by_sig[sg] = [(i, v) for i, v in by_sig[sg] if i not in invalid_runs]
+                if not by_sig[sg]:
+                    del by_sig[sg]
+        stats["skipped_invalid_scenarios"] = len(invalid_runs)
         exit_code = 0
         known_hit = {}
         new_sigs = []
